@@ -1,7 +1,10 @@
 //! C17 harness: concrete syntax trees of vhdl_syntax are lossless, tree edits are local.
 //!
 //! usage: c17 <mode> <seed> <n> <cases_out> <impl_out>
-//!   mode = exhaustive<k> | random | file:<path>     (file: one input per line, bytes in decimal)
+//!   mode = exhaustive<k> | random | file:<path> | deep:<n>[:<k>/<m>]
+//!          (file: one input per line, bytes in decimal, or a descriptor `@deep:<shape>:<n>:<c|u>`;
+//!           deep:<n>: every nesting shape of DEEP_SHAPES at depth n, closed and unclosed, each in a child
+//!           process whose worker thread has a 2 MiB stack, so that a stack overflow (process abort) is observed: flag A)
 //!
 //! cases_out: one case per line  `bytes|tree|repl`
 //!   bytes = the input, decimal, space separated
@@ -233,9 +236,17 @@ fn printed(n: &SyntaxNode) -> Vec<u8> {
 const REPL_TEXTS: [&[u8]; 4] = [b"zz", b"", b"\"a b\"", b"Q_9\xe9"];
 
 /// Runs the implementation on one input; returns (case line, impl line).
-fn run_case(input: &[u8], rng: &mut Rng, fixed_repl: Option<&str>) -> (String, String) {
+/// Inputs above this size are not run through the extracted model (quadratic list model): their token and
+/// offset dumps are replaced by `BIG`; the oracle is evaluated in full.
+const BIG: usize = 5000;
+
+fn run_case(input: &[u8], rng: &mut Rng, fixed_repl: Option<&str>, label: Option<&str>, expect_clean: bool) -> (String, String) {
+    let big = input.len() > BIG;
     let mut flags = String::new();
     take_panic();
+    let t0 = std::time::Instant::now();
+    let timing = std::env::var("C17_TIMING").is_ok();
+    macro_rules! lap { ($n:expr) => { if timing { eprintln!("{} {:?}", $n, t0.elapsed()); } } }
     // ---- tokenizer ----
     let inp = input.to_vec();
     let raw = catch_unwind(AssertUnwindSafe(|| inp.as_slice().tokenize().collect::<Vec<_>>()));
@@ -250,7 +261,7 @@ fn run_case(input: &[u8], rng: &mut Rng, fixed_repl: Option<&str>) -> (String, S
             if out != input || sum != input.len() {
                 flags.push('T');
             }
-            toks_str(ts)
+            if big { "BIG".to_string() } else { toks_str(ts) }
         }
         Err(_) => {
             flags.push('T');
@@ -259,12 +270,13 @@ fn run_case(input: &[u8], rng: &mut Rng, fixed_repl: Option<&str>) -> (String, S
     };
     let stream = catch_unwind(AssertUnwindSafe(|| TokenStream::from(inp.as_slice()).collect::<Vec<_>>()));
     let stream_s = match &stream {
-        Ok(ts) => toks_str(ts),
+        Ok(ts) => if big { "BIG".to_string() } else { toks_str(ts) },
         Err(_) => {
             flags.push('T');
             "PANIC".to_string()
         }
     };
+    lap!("tokenized");
     // ---- parser ----
     let parsed = catch_unwind(AssertUnwindSafe(|| vhdl_syntax::parser::parse(inp.as_slice())));
     let mut events = String::new();
@@ -276,6 +288,7 @@ fn run_case(input: &[u8], rng: &mut Rng, fixed_repl: Option<&str>) -> (String, S
     match parsed {
         Err(_) => flags.push('P'),
         Ok((file, errs)) => {
+            lap!("parsed");
             let root = file.raw();
             if printed(&root) != input {
                 flags.push('L');
@@ -293,8 +306,9 @@ fn run_case(input: &[u8], rng: &mut Rng, fixed_repl: Option<&str>) -> (String, S
             if w.slice_bad {
                 flags.push('D');
             }
-            events = w.events.trim_end().to_string();
-            offsets = w.offsets.trim_end_matches(';').to_string();
+            events = if big { "BIG".to_string() } else { w.events.trim_end().to_string() };
+            offsets = if big { "BIG".to_string() } else { w.offsets.trim_end_matches(';').to_string() };
+            lap!("walked");
             // leaf sequence = token stream
             if let Ok(ts) = &stream {
                 let same = ts.len() == w.leaves.len() && ts.iter().zip(w.leaves.iter()).all(|((t, _), l)| t == l.token());
@@ -312,7 +326,16 @@ fn run_case(input: &[u8], rng: &mut Rng, fixed_repl: Option<&str>) -> (String, S
                 }
                 es.push(err_str(e));
             }
+            if expect_clean && !errs.is_empty() {
+                flags.push('V');
+            }
+            if big && es.len() > 40 {
+                let n = es.len();
+                es.truncate(40);
+                es.push(format!("...{}", n));
+            }
             errors = es.join(";");
+            lap!("errors");
             // identity rewrites
             let r1 = catch_unwind(AssertUnwindSafe(|| root.rewrite(|_| RewriteAction::Leave)));
             match &r1 {
@@ -341,6 +364,7 @@ fn run_case(input: &[u8], rng: &mut Rng, fixed_repl: Option<&str>) -> (String, S
                     identity.push_str("PANIC");
                 }
             }
+            lap!("identity");
             // single-token replacements
             let nt = w.leaves.len();
             let mut reqs: Vec<(usize, Vec<u8>)> = Vec::new();
@@ -350,9 +374,9 @@ fn run_case(input: &[u8], rng: &mut Rng, fixed_repl: Option<&str>) -> (String, S
                     reqs.push((i.parse().unwrap(), unhex(h)));
                 }
             } else if nt > 0 {
-                let mut idx: Vec<usize> = if nt <= 6 { (0..nt).collect() } else { vec![0, nt - 1, nt - 2] };
+                let mut idx: Vec<usize> = if nt <= 6 { (0..nt).collect() } else if big { vec![nt - 1] } else { vec![0, nt - 1, nt - 2] };
                 if nt > 6 {
-                    for _ in 0..3 {
+                    for _ in 0..(if big { 1 } else { 3 }) {
                         idx.push(rng.below(nt));
                     }
                 }
@@ -418,6 +442,7 @@ fn run_case(input: &[u8], rng: &mut Rng, fixed_repl: Option<&str>) -> (String, S
             if local_bad {
                 flags.push('C');
             }
+            lap!("replaced");
             repl_req = rq.join(",");
             repl_res = rs.join(";");
         }
@@ -426,7 +451,8 @@ fn run_case(input: &[u8], rng: &mut Rng, fixed_repl: Option<&str>) -> (String, S
         flags.push('-');
     }
     (
-        format!("{}|{}|{}", dec(input), events, repl_req),
+        // big generated inputs are named by their descriptor, everything else is written out
+        format!("{}|{}|{}", label.filter(|_| big).map(|l| l.to_string()).unwrap_or_else(|| dec(input)), events, repl_req),
         format!("{}|{}|{}|{}|{}|{}|{}|{}", flags, raw_s, stream_s, offsets, errors, identity, repl_res, take_panic()),
     )
 }
@@ -451,6 +477,63 @@ const WORDS: &[&[u8]] = &[
     b"<", b">", b"<>", b">=", b"=", b"[", b"]", b"$", b"_", b"\r\n", b"-- c\n", b"/* c */", b"disconnect", b"force", b"release",
     b"private", b"vpgk", b"vunit",
 ];
+
+const DECL: &str = "package p is\n  constant c : integer := ";
+const DECL_END: &str = ";\nend package;\n";
+const PROCESS: &str = "entity e is\nend;\n\narchitecture a of e is\nbegin\n  process\n  begin\n";
+const PROCESS_END: &str = "  end process;\nend architecture;\n";
+const ARCH: &str = "entity e is\nend;\n\narchitecture a of e is\nbegin\n";
+const ARCH_END: &str = "end architecture;\n";
+/// (name, prefix, opens one level, innermost text, closes one level, suffix, the closed form is valid VHDL)
+const DEEP_SHAPES: &[(&str, &str, &str, &str, &str, &str, bool)] = &[
+    ("bare parentheses", "", "(", "", ")", "", false),
+    ("parenthesized expression", DECL, "(", "1", ")", DECL_END, true),
+    ("aggregate", DECL, "(others => ", "0", ")", DECL_END, true),
+    ("indexed name / call a(b(b(", "package p is\n  constant c : integer := a(", "b(", "1", ")", ");\nend package;\n", true),
+    ("qualified expression", DECL, "t'(", "1", ")", DECL_END, true),
+    ("unary not", DECL, "not ", "a", "", DECL_END, true),
+    ("unary minus", DECL, "- ", "1", "", DECL_END, true),
+    ("external name in external name", DECL, "<< signal .g(", "1", ").s : bit >>", DECL_END, true),
+    ("array/record constraint", "package p is\n  subtype s is t", "(a", "(0 to 1)", ")", DECL_END, true),
+    ("record aggregate by name", DECL, "(f => ", "0", ")", DECL_END, true),
+    ("subprogram body", "package body p is\n", "function f return integer is\n", "", "begin\n  return 0;\nend function;\n", "end package body;\n", true),
+    ("nested package", "package p is\n", "package q is\n", "", "end package;\n", "end package;\n", false),
+    ("nested package body", "package body p is\n", "package body q is\n", "", "end package body;\n", "end package body;\n", false),
+    ("if statement", PROCESS, "if a then\n", "null;\n", "end if;\n", PROCESS_END, true),
+    ("case statement", PROCESS, "case a is\nwhen others =>\n", "null;\n", "end case;\n", PROCESS_END, true),
+    ("loop statement", PROCESS, "loop\n", "null;\n", "end loop;\n", PROCESS_END, true),
+    ("block statement", ARCH, "b : block\nbegin\n", "", "end block;\n", ARCH_END, true),
+    ("if generate", ARCH, "g : if c generate\n", "", "end generate;\n", ARCH_END, true),
+    ("for generate", ARCH, "g : for i in 0 to 1 generate\n", "", "end generate;\n", ARCH_END, true),
+    ("case generate", ARCH, "g : case c generate\nwhen others =>\n", "", "end generate;\n", ARCH_END, true),
+];
+
+fn deep_input(shape: usize, n: usize, closed: bool) -> Vec<u8> {
+    let (_, prefix, open, inner, close, suffix, _) = DEEP_SHAPES[shape];
+    let mut s = String::from(prefix);
+    s.push_str(&open.repeat(n));
+    if closed {
+        s.push_str(inner);
+        s.push_str(&close.repeat(n));
+        s.push_str(suffix);
+    }
+    s.into_bytes()
+}
+
+/// `@deep:<shape>:<n>:<c|u>` -> (input, no syntax error expected)
+fn parse_descriptor(d: &str) -> Option<(Vec<u8>, bool)> {
+    let p: Vec<&str> = d.split(':').collect();
+    if p.len() != 4 || p[0] != "@deep" {
+        return None;
+    }
+    let shape: usize = p[1].parse().ok()?;
+    let n: usize = p[2].parse().ok()?;
+    if shape >= DEEP_SHAPES.len() {
+        return None;
+    }
+    let closed = p[3] == "c";
+    Some((deep_input(shape, n, closed), closed && DEEP_SHAPES[shape].6 && n <= 50))
+}
 
 fn library_files() -> Vec<Vec<u8>> {
     let mut out = Vec::new();
@@ -583,7 +666,7 @@ fn main() {
     }));
     // deep recursive-descent on nested input: give the worker a large stack
     let child = std::thread::Builder::new()
-        .stack_size(1 << 30)
+        .stack_size(std::env::var("C17_STACK").ok().and_then(|x| x.parse().ok()).unwrap_or(1 << 30))
         .spawn(move || {
             let mut cases = std::io::BufWriter::new(std::fs::File::create(&cases_path).unwrap());
             let mut imp = std::io::BufWriter::new(std::fs::File::create(&impl_path).unwrap());
@@ -592,8 +675,8 @@ fn main() {
             let mut seeder = Rng::new(seed ^ 0xC17);
             seeder.next();
             let mut rng = Rng(seeder.next() ^ seed.rotate_left(32));
-            let mut emit = |input: &[u8], rng: &mut Rng, fixed: Option<&str>| {
-                let (c, i) = run_case(input, rng, fixed);
+            let mut emit = |input: &[u8], rng: &mut Rng, fixed: Option<&str>, label: Option<&str>, clean: bool| {
+                let (c, i) = run_case(input, rng, fixed, label, clean);
                 writeln!(cases, "{}", c).unwrap();
                 writeln!(imp, "{}", i).unwrap();
             };
@@ -609,8 +692,15 @@ fn main() {
                     let b = parts.next().unwrap_or("");
                     let _tree = parts.next();
                     let repl = parts.next();
+                    if b.starts_with('@') {
+                        match parse_descriptor(b) {
+                            Some((bytes, clean)) => emit(&bytes, &mut rng, repl, Some(b), clean),
+                            None => panic!("bad descriptor {}", b),
+                        }
+                        continue;
+                    }
                     let bytes: Vec<u8> = b.split(' ').filter(|x| !x.is_empty()).map(|x| x.parse::<u16>().unwrap() as u8).collect();
-                    emit(&bytes, &mut rng, repl);
+                    emit(&bytes, &mut rng, repl, None, false);
                 }
             } else if let Some(k) = mode.strip_prefix("exhaustive") {
                 let k: usize = k.parse().unwrap();
@@ -623,14 +713,51 @@ fn main() {
                             s.push(ALPHABET[x % a]);
                             x /= a;
                         }
-                        emit(&s, &mut rng, None);
+                        emit(&s, &mut rng, None, None, false);
+                    }
+                }
+            } else if let Some(n) = mode.strip_prefix("deep:") {
+                // one child process per case: a stack overflow aborts the child only
+                // deep:<n> or deep:<n>:<k>/<m> (only the shapes with index % m == k)
+                let (n, part) = n.split_once(':').unwrap_or((n, "0/1"));
+                let n: usize = n.parse().unwrap();
+                let (k, m) = part.split_once('/').unwrap();
+                let (k, m): (usize, usize) = (k.parse().unwrap(), m.parse().unwrap());
+                let exe = std::env::current_exe().unwrap();
+                for shape in (0..DEEP_SHAPES.len()).filter(|x| x % m == k) {
+                    for closed in [true, false] {
+                        let d = format!("@deep:{}:{}:{}", shape, n, if closed { "c" } else { "u" });
+                        let tmp = format!("{}.child", cases_path);
+                        std::fs::write(format!("{}.in", tmp), format!("{}\n", d)).unwrap();
+                        let st = std::process::Command::new(&exe)
+                            .args([&format!("file:{}.in", tmp), &seed.to_string(), "0", &format!("{}.cases", tmp), &format!("{}.impl", tmp)])
+                            .env("C17_STACK", (2usize << 20).to_string())
+                            .stderr(std::process::Stdio::null())
+                            .status();
+                        let ok = matches!(&st, Ok(x) if x.success());
+                        let (c, i) = if ok {
+                            (std::fs::read_to_string(format!("{}.cases", tmp)).unwrap_or_default(), std::fs::read_to_string(format!("{}.impl", tmp)).unwrap_or_default())
+                        } else {
+                            (String::new(), String::new())
+                        };
+                        if ok && c.lines().count() == 1 && i.lines().count() == 1 {
+                            write!(cases, "{}", c).unwrap();
+                            write!(imp, "{}", i).unwrap();
+                        } else {
+                            let small = deep_input(shape, n, closed);
+                            writeln!(cases, "{}||", if small.len() > BIG { d.clone() } else { dec(&small) }).unwrap();
+                            writeln!(imp, "A|BIG|BIG|||||child process died on a 2 MiB stack: {:?}", st.map(|x| x.to_string())).unwrap();
+                        }
+                        for ext in ["in", "cases", "impl"] {
+                            let _ = std::fs::remove_file(format!("{}.{}", tmp, ext));
+                        }
                     }
                 }
             } else {
                 let corpus = library_files();
                 for _ in 0..n {
                     let s = gen_random(&mut rng, &corpus);
-                    emit(&s, &mut rng, None);
+                    emit(&s, &mut rng, None, None, false);
                 }
             }
             cases.flush().unwrap();
